@@ -226,6 +226,34 @@ def run(tier, seed, replay):
             viol[sig] = (what, data)
 
     lines, expect = [], []
+    # a long grid whose spacing drifts within the tolerance of the uniformity detection: the index formula is several
+    # intervals off near the end and the walk must bring it back (orders 0 and 1, values known in closed form)
+    try:
+        with core.time_limit(300):
+            nlong = 1200000
+            h0 = float(10.0 ** rng.integers(-9, 3))
+            sign_ = float(rng.choice([1.0, -1.0]))
+            tlong = np.concatenate([[0.0], np.cumsum(h0 * (1 + sign_ * 0.9e-5 * np.arange(nlong - 1) / nlong))]) + float(rng.uniform(-5, 5)) * h0
+            slong = (np.arange(nlong) % 97) * 0.125 + 1j * (np.arange(nlong) % 13)
+            for order_ in (0, 1):
+                cl = qutip.coefficient(slong, tlist=tlong, order=order_)
+                ks = np.unique(np.concatenate([rng.integers(1, nlong - 2, 6), nlong - 2 - rng.integers(0, 2000, 20), [nlong // 2, nlong - 3]]))
+                rep.count("long-drifting-grid")
+                for k_ in ks:
+                    for frac in (0.0, 0.25, 0.999):
+                        q_ = float(tlong[k_] + frac * (tlong[k_ + 1] - tlong[k_]))
+                        kk = int(np.searchsorted(tlong, q_, side="right")) - 1
+                        want_ = slong[kk] if order_ == 0 else slong[kk] + (slong[kk + 1] - slong[kk]) * ((q_ - tlong[kk]) / (tlong[kk + 1] - tlong[kk]))
+                        got_ = complex(cl(q_))
+                        rep.evaluations += 1
+                        if abs(got_ - want_) > (0.0 if order_ == 0 else 1e-6):
+                            v(f"long-grid:order{order_}", f"order {order_} coefficient on a grid of {nlong} points whose spacing drifts by 9e-6 (relative) over its length returns {got_} at t between samples {kk} and {kk + 1}, expected {want_}",
+                              {"n": nlong, "h0": h0, "drift_sign": sign_, "k": int(kk), "t": q_, "order": order_})
+                            break
+    except core.CaseTimeout:
+        raise
+    except Exception as e:
+        v("long-grid-raises", f"{type(e).__name__}: {e}"[:240], {})
     for ci in range(ncase):
         t, kind, scale = gen_grid(rng)
         n = len(t)
@@ -499,6 +527,55 @@ def run(tier, seed, replay):
                 if abs(got - want) > 1e-12 * max(1, abs(want)):
                     v(f"function-path:{name}", f"{f.__name__} style={style} (by {how}): arguments given by {name} give {got}, the function value is {want}", {"f": f.__name__, "style": style, "path": name, "w": w, "phase": p, "t": tt})
     # composite coefficients: replacement and call-time arguments give new values and leave the composite alone
+    # functions that went through one and the same signature-preserving decorator share a code object but not a signature:
+    # each is analysed by its own signature, in whatever order they are used
+    import functools
+
+    def scaled(func):
+        @functools.wraps(func)
+        def wrapper(*a_, **k_):
+            return 2.0 * func(*a_, **k_)
+        return wrapper
+
+    @scaled
+    def w_named(t, w):
+        return np.exp(-1j * w * t)
+
+    @scaled
+    def w_defaults(t, rate=1.0, offset=0.0):
+        return rate * t + offset
+
+    @scaled
+    def w_dict(t, args):
+        return args["w"] * t + args.get("phase", 0.25)
+
+    @scaled
+    def w_kwonly(t, *, w, **kw):
+        return w * t + kw.get("phase", 0.5)
+    wrapped = [("named", w_named, {"w": 1.5}, lambda t, a: 2.0 * np.exp(-1j * a["w"] * t)),
+               ("defaults", w_defaults, {"rate": 0.5, "offset": 2.0}, lambda t, a: 2.0 * (a["rate"] * t + a["offset"])),
+               ("dict", w_dict, {"w": 0.75, "phase": 1.0}, lambda t, a: 2.0 * (a["w"] * t + a["phase"])),
+               ("keyword-only", w_kwonly, {"w": 2.0, "phase": 0.125}, lambda t, a: 2.0 * (a["w"] * t + a["phase"]))]
+    for order_ in ([0, 1, 2, 3], [3, 2, 1, 0], [1, 0, 3, 2]):
+        for idx_ in order_:
+            nm_, f_, a_, ref_ = wrapped[idx_]
+            for tt in (0.0, 0.3, -0.7, 2.5):
+                try:
+                    c1_ = qutip.coefficient(f_, args=dict(a_))
+                    a2_ = {k_: x_ * 2 + 1 for k_, x_ in a_.items()}
+                    got_ = {"construction": complex(c1_(tt)), "call-time": complex(qutip.coefficient(f_, args=dict(a_))(tt, **a2_)),
+                            "replacement": complex(c1_.replace_arguments(a2_)(tt)), "original-after-replacement": complex(c1_(tt))}
+                    want_ = {"construction": ref_(tt, a_), "call-time": ref_(tt, a2_), "replacement": ref_(tt, a2_), "original-after-replacement": ref_(tt, a_)}
+                except Exception as e:
+                    v(f"decorated-raises:{nm_}", f"a function with the signature style '{nm_}' that went through a functools.wraps decorator (used after {[wrapped[i][0] for i in order_[:order_.index(idx_)]]}): {type(e).__name__}: {e}"[:300], {"style": nm_})
+                    break
+                rep.evaluations += 1
+                rep.count("decorated-function")
+                bad_ = [k_ for k_ in want_ if abs(got_[k_] - want_[k_]) > 1e-12 * max(1, abs(want_[k_]))]
+                if bad_:
+                    v(f"decorated:{nm_}", f"a decorated (functools.wraps) function with the signature style '{nm_}', used after {[wrapped[i][0] for i in order_[:order_.index(idx_)]]}: {bad_[0]} gives {got_[bad_[0]]}, the function gives {want_[bad_[0]]} at t={tt}", {"style": nm_, "path": bad_[0]})
+                    break
+
     def g1(t, w):
         return np.cos(w * t)
 
